@@ -262,7 +262,13 @@ impl Family for C06 {
               // the emissions in progress at that instant (possibly nested) may still run; later ones are judged.
               // contains / all tear their source down *before* they deliver the verdict, so there even an
               // emission attempted from inside the verdict's delivery is already judged
-              let horizon = if cop == "contains" || cop == "all" { s_at } else { horizon(s_at) };
+              // - provided the verdict was caused by an item travelling down: while an upstream
+              // *terminal* is travelling down, the stages above are in the middle of their own
+              // completion (they have already dropped their upstream registrations and sweep the
+              // rest when the call returns), so an abort from below cannot reach their siblings yet
+              let only_items_in_progress = r.src_logs.iter().all(|l| l.lock().unwrap().emits.iter().filter(|e| e.seq_start < s_at && e.seq_end > s_at).all(|e| matches!(e.step, Step::N(_))))
+                && r.subject_emits.iter().filter(|e| e.seq_start < s_at && e.seq_end > s_at).all(|e| matches!(e.step, Step::N(_)));
+              let horizon = if (cop == "contains" || cop == "all") && only_items_in_progress { s_at } else { horizon(s_at) };
               for i in &below {
                 let l = r.src_logs[*i].lock().unwrap();
                 if let Some(e) = l.emits.iter().find(|e| e.seq_start > horizon && e.sub_before) {
